@@ -24,7 +24,7 @@ try:
     r = sh("python3 /verif/tools/baseline.py /repo"); meta["baseline_with_patch"] = r.stdout.strip().splitlines()[-2:]; meta["baseline_with_patch_ok"] = r.returncode == 0
     meta["checks"] = {}
     for cid in check_ids:
-        t=time.time(); r = sh(f"cd /verif && bin/check {cid} --tier quick"); 
+        t=time.time(); r = sh(f"cd /verif && timeout -k 5 600 bin/check {cid} --tier quick"); 
         lines = [l for l in r.stdout.splitlines() if "new signature" in l or l.startswith("VIOLATION") or "HARNESS" in l]
         meta["checks"][cid] = {"cmd": f"bin/check {cid} --tier quick", "exit": r.returncode, "caught": r.returncode == 1, "wall_s": round(time.time()-t,1), "lines": lines[:6]}
 finally:
